@@ -291,17 +291,40 @@ def main(tier, seed):
                           lmetas[i].desc(), key="learn:model")
             nviol += 1
     # ---- (c) prune: final training set is a sub-multiset with labels intact (oracle)
-    NP = 40 if tier == "quick" else 2500
+    NP = 240 if tier == "quick" else 4000
     pruned = 0
     pterms, pexpect, pmetas = [], [], []
     for i in range(NP):
-        it = gen_instance(rng, nmax=9, m=rng.randint(2, 5), kinds=("feat",))
+        # lattice sets have tied arc weights: a retained sample may then carry an assigned label different from its true one
+        if i % 2 == 1:
+            # partially filled integer grid, classes split by diagonal lines, validation points from the grid enlarged by one
+            # cell: many equal arc weights, so some training samples are conquered by the other class and stay relevant
+            gw, gh = rng.randint(2, 4), rng.randint(2, 4)
+            cells = [[float(x), float(y)] for x in range(gw) for y in range(gh) if rng.random() < 0.7]
+            rng.shuffle(cells)
+            cut, three = rng.uniform(0.5, gw + gh - 2.5), rng.random() < 0.4
+
+            def side(c_):
+                v = c_[0] + c_[1]
+                return 1 if v <= cut else (2 if (not three or v <= cut + 1.5) else 3)
+            labs = [side(c_) for c_ in cells]
+            if len(cells) < 4 or len(set(labs)) < 2:
+                continue
+            nv = rng.randint(3, 8)
+            V = [[float(rng.randint(-1, gw)), float(rng.randint(-1, gh))] for _ in range(nv)]
+            metric = rng.choice(["euclidean", "manhattan", "squared_euclidean", "chebyshev", "log_squared_euclidean"])
+            it = Instance("grid", cells + V, labs, metric_matrix(metric, cells + V), 0, nv, metric)
+            yva = [side(v) for v in V]
+        else:
+            it = gen_instance(rng, nmax=9, m=rng.randint(2, 5), kinds=("feat", "lattice"))
+            yva = None
         if it.X is None:
             continue
+        it.Xarr = None
         X = np.array(it.X, dtype=float)
         n = it.n
         Xtr, Ytr = X[:n].copy(), np.array(it.labels)
-        Xva = X[n:].copy(); Yva = np.array([it.labels[rng.randrange(n)] for _ in range(it.m)])
+        Xva = X[n:].copy(); Yva = np.array(yva if yva is not None else [it.labels[rng.randrange(n)] for _ in range(it.m)])
         n_it = rng.randint(1, 3)
         try:
             opf, flagss = run_prune(it.metric, Xtr, Ytr, Xva, Yva, n_it)
